@@ -80,4 +80,14 @@ var Presets = map[string]*Config{
 			RuneFn:      "GIV.Build.runes",
 		}
 	}(),
+	"diff": func() *Config {
+		lib := bytesLib()
+		lib["strings.SplitAfter"] = LibFn{Lean: "GIV.Diff.splitAfterNL", Ret: &Type{K: KList, Elem: TStr}, FixedArgs: []string{"", "\"\\n\""}}
+		return &Config{
+			Lib:     lib,
+			Globals: map[string]Global{},
+			Structs: map[string]*Struct{},
+			Fuel:    map[string]string{},
+		}
+	}(),
 }
